@@ -296,6 +296,18 @@ func rangeTestBeforeTruncation(fs []Fact, x ssa.Value) string {
 		}
 		op := bo.Op
 		var k *ssa.Const
+		// |x| op K: a symmetric test; the asymmetric int32 range makes
+		// |x| <= MaxInt32 keep out −2147483648.x, whose truncation fits
+		if c, ok := stripConv(bo.X).(*ssa.Call); ok && calleeQualified(&c.Call) == "math.Abs" && len(c.Call.Args) == 1 && stripConv(c.Call.Args[0]) == x {
+			if kc, ok := bo.Y.(*ssa.Const); ok && kc.Value != nil {
+				kv, _ := constant.Float64Val(constant.ToFloat(kc.Value))
+				proceedsBelow := (op == token.LEQ || op == token.LSS) == f.Truth
+				if (op == token.LEQ || op == token.LSS || op == token.GTR || op == token.GEQ) && proceedsBelow && kv < 2147483649.0 {
+					return fmt.Sprintf("math.Abs(%s) %s %v is %v on the way to the conversion", x.Name(), op, kv, f.Truth)
+				}
+			}
+			continue
+		}
 		switch {
 		case stripConv(bo.X) == x:
 			k, _ = bo.Y.(*ssa.Const)
@@ -555,7 +567,7 @@ func init() {
 	register(ruleSelect, ruleLast, ruleTrunc, ruleMethodTypes)
 	addProp(&PropSpec{
 		ID:          "C14",
-		Rules:       []string{"R-SELECT", "R-LAST", "R-TRUNC", "R-F2I", "R-STATE", "R-MODEGUARD", "R-LAUNDER", "R-LISTINDEX", "R-SUBEVAL", "R-LITCHAIN", "R-EXECADDR", "R-SUBBOUNDS"},
+		Rules:       []string{"R-SELECT", "R-LAST", "R-TRUNC", "R-F2I", "R-STATE", "R-MODEGUARD", "R-LAUNDER", "R-LISTINDEX", "R-SUBEVAL", "R-LITCHAIN", "R-EXECADDR", "R-SUBBOUNDS", "R-COLLMONO", "R-INPUT-RO"},
 		Explanation: "Selection by position as shapes of the subscript executor: the element loaded at array[i] reaches the continuation with no branch on its value; `last` is the recorded length minus one of the innermost subscripted array (recorded before the subscripts are evaluated, restored on every exit); subscript values are truncated, finiteness-checked and range-checked against int32; the out-of-bounds error is guarded by strictness; a failed subscript expression is never mistaken for index 0.",
 		Decided: []string{"R-SELECT: no value-dependent branch between array[i] and the continuation", "R-LAST: `last` = recorded size − 1; hard error outside a subscript",
 			"R-TRUNC + R-F2I: truncating conversion after a NaN/Inf check, int32 range test on the result", "R-STATE: innermost size restored on every exit",
